@@ -218,7 +218,7 @@ class Check(Prop):
             "literals, indexing by literal index/key, push and << growth, hash stores, chains of valid calls, reassignment. Oracle: a "
             "reference model carries a type per variable (scalar/union set, array element set, hash key->class); `dbtp v` after every "
             "step and for every variable at the end must equal the model structurally (sets, order-insensitive). Nested arrays and "
-            "absent hash keys are not generated. Non-trivial = an asserted probe whose type comes from a return-type resolution, an "
+            "absent hash keys are not generated. A third of the cases instead use C07's generated configurations and call programs: the result of every certainly valid call (before the first line that is not certainly valid) must have the declared return type with Self and unions resolved, also for union receivers. Non-trivial = an asserted probe whose type comes from a return-type resolution, an "
             "array/hash operation, a union or a reassignment; distinct by SHA-1(program).")
     ASSUMPTIONS = (
         "the configuration is written by hand from the documentation, the model never reads ti's loader",
@@ -234,13 +234,68 @@ class Check(Prop):
             self.files[f] = open(os.path.join(self.repo, "test", ".ti-config", f)).read()
 
     def strategy(self):
+        from .. import callprog
         step = st.fixed_dictionaries({"r": st.integers(0, 99), "x": st.integers(0, 50), "y": st.integers(0, 50), "z": st.integers(0, 50)})
-        return st.fixed_dictionaries({"steps": st.lists(step, min_size=4, max_size=10)})
+        steps = st.fixed_dictionaries({"steps": st.lists(step, min_size=4, max_size=10)})
+        calls = callprog.call_program(valid=True, nest=False, ncalls=(2, 6))
+        return st.one_of(steps, steps, calls)
 
     def sample(self, case):
+        if "steps" not in case:
+            from .. import callprog
+            return {"program": callprog.source(case)}
         return {"program": render(case)[0]}
 
+    def evaluate_calls(self, case, rt):
+        """Generated configurations: the result of a certainly valid call has the declared return type (Self and unions resolved)."""
+        from .. import callprog, cfg as cfgmod
+        src = callprog.source(case)
+        files = cfgmod.render_files(case["cfg"])
+        vs, model = callprog.verdicts(case)
+        key = run.sha(src, json.dumps(files, sort_keys=True))
+        labels = ["generated-config"]
+        try:
+            recs = meta.analyse(rt, src, [], config=files)
+        except meta.Discard as d:
+            return meta.discard_verdict(d, labels, key)
+        by_row = {}
+        for k, r, t in recs:
+            by_row.setdefault(r, []).append(t)
+        nontrivial = False
+        for p, v, why, app in vs:
+            if v != "MUST_OK":
+                break
+            want = set()
+            ok = True
+            for c, oks in app:
+                # which overload answers is only certain when every other declaration of the method certainly rejects the call
+                others = [d for d in model.decls(c, p["m"], p.get("static", False)) if d not in oks]
+                if any(model.fits(d, [set(x) for x in p["pos"]], {k: set(x) for k, x in p["kws"].items()})[0] != "ERR" for d in others):
+                    ok = False
+                    break
+                rets = {tuple(sorted(model.return_classes(c, d) or [])) for d in oks}
+                if len(rets) != 1 or not next(iter(rets)):
+                    ok = False      # several applicable declarations with different returns, or a return kind the model does not cover
+                    break
+                want |= set(next(iter(rets)))
+            if not ok:
+                continue
+            nontrivial = True
+            labels.append("ret:" + ("union" if len(want) > 1 else "single") + (":union-recv" if len(p["R"]) > 1 else ""))
+            got = by_row.get(p["dbtp_row"], ["<none>"])[-1]
+            try:
+                g = outmod.parse_type(got)
+            except outmod.TypeParseError:
+                g = frozenset([got])
+            if g != frozenset(want):
+                decls = [d for c in p["R"] for d in model.decls(c, p["m"], p.get("static", False))]
+                return Verdict({"what": "row %d: result of %s.%s(...) should be %s, ti reports %s" % (p["dbtp_row"], p["R"], p["m"], sorted(want), got), "op": "configured-return",
+                                "probe": p, "decls": decls, "reason": "count", "program": meta.with_rows(src), "config": files}, labels + ["mismatch"], nontrivial, key)
+        return Verdict(None, labels, nontrivial, key)
+
     def evaluate(self, case, rt):
+        if "steps" not in case:
+            return self.evaluate_calls(case, rt)
         src, probes = render(case)
         key = run.sha(src)
         labels = []
@@ -272,4 +327,25 @@ class Check(Prop):
             src, probes = render(case)
             var = v.get("var")
             return bool(var) and ("%s.v_opt()" % var) in src and "NilClass" in (v.get("what") or "")
-        return {"c09_optional_unify_mutates_receiver": m_after}
+        from .c07_matchers import overload_shared_keyword
+
+        def m_rest_trailing(case, v, params):
+            """An overload (?a, *r, t) is taken to accept a call that passes fewer positionals than it requires (C07's listed finding),
+            so its return type is reported instead of the applicable overload's."""
+            p_ = v.get("probe")
+            if not p_ or v.get("op") != "configured-return":
+                return False
+            for d in v.get("decls") or []:
+                pos_args = [a for a in d["args"] if not a["key"]]
+                ridx = next((i for i, a in enumerate(pos_args) if a["rest"]), None)
+                if ridx is None:
+                    continue
+                before, after = pos_args[:ridx], pos_args[ridx + 1:]
+                need = len([a for a in before if not a["default"]]) + len(after)
+                if after and len(p_["pos"]) < need:
+                    return True
+            return False
+
+        def m_shared_kw(case, v, params):
+            return v.get("op") == "configured-return" and overload_shared_keyword(case, v, params)
+        return {"c09_optional_unify_mutates_receiver": m_after, "c09_rest_trailing_overload": m_rest_trailing, "c09_overload_shared_keyword": m_shared_kw}
